@@ -82,6 +82,16 @@ type vfHist struct {
 	snap  []byte
 }
 
+// vfSaved: what the oracle knows a parked directory holds.
+type vfSaved struct {
+	haveHist           bool
+	hbase              int64
+	hist               []byte
+	haveSnap           bool
+	snapLeft, snapSize int64
+	snap               []byte
+}
+
 type vfDisk struct {
 	s       *vfutil.Session
 	r       *vfutil.Rand
@@ -106,6 +116,9 @@ type vfDisk struct {
 	snapPlan []byte          // bytes the generator will feed to the snapshot writer
 	sgen     int             // incremented when a snapshot is created or lost
 	past     map[int]*vfHist // histories of earlier generations (readers opened then)
+	// the oracle's record of the OTHER run-id directories of this store (several ids in one
+	// base directory: left by a restart, or by DelRunId of a foreign id)
+	others map[string]*vfSaved
 	// live objects
 	aofW                   *AofWriter
 	rdbW                   *RdbWriter
@@ -252,6 +265,13 @@ func vfFooterOk(b []byte) bool {
 	return binary.LittleEndian.Uint64(b[len(b)-8:]) == c.Sum64()
 }
 
+func vfUndash(s string) string {
+	if s == "-" {
+		return ""
+	}
+	return s
+}
+
 func vfDash(s string) string {
 	if s == "" {
 		return "-"
@@ -296,7 +316,35 @@ func (d *vfDisk) dump() {
 	if fl == "" {
 		fl = "-"
 	}
-	d.emit("ddump", fmt.Sprintf("segs=%s rdb=%s files=%s", sl, rdb, fl))
+	// the directories of the other ids under the same base directory
+	var dirs []string
+	if ents, err := os.ReadDir(d.root); err == nil {
+		for _, e := range ents {
+			if !e.IsDir() || (d.st.dir != "" && filepath.Join(d.root, e.Name()) == d.st.dir) {
+				continue
+			}
+			var fs []string
+			if sub, err := os.ReadDir(filepath.Join(d.root, e.Name())); err == nil {
+				for _, f := range sub {
+					if fi, err := f.Info(); err == nil {
+						fs = append(fs, fmt.Sprintf("%s:%d", f.Name(), fi.Size()))
+					}
+				}
+			}
+			sort.Strings(fs)
+			x := strings.Join(fs, ",")
+			if x == "" {
+				x = "-"
+			}
+			dirs = append(dirs, fmt.Sprintf("%s[%s]", e.Name(), x))
+		}
+	}
+	sort.Strings(dirs)
+	dl := strings.Join(dirs, ";")
+	if dl == "" {
+		dl = "-"
+	}
+	d.emit("ddump", fmt.Sprintf("segs=%s rdb=%s files=%s dirs=%s", sl, rdb, fl, dl))
 }
 
 // probes: offsets around every boundary the oracle knows about.
@@ -349,6 +397,7 @@ func (d *vfDisk) opNew(logSize, maxSize int64) {
 	d.runId = ""
 	d.gen, d.wgen, d.sgen = 0, 0, 0
 	d.past = nil
+	d.others = map[string]*vfSaved{}
 	d.haveHist, d.hist, d.snap = false, nil, nil
 	d.resetOracle()
 	d.aofW, d.rdbW, d.rdbSR = nil, nil, nil
@@ -375,6 +424,55 @@ func (d *vfDisk) resetOracle() {
 	d.aofW = nil
 }
 
+// parkCur: the current directory joins the others (the oracle's account: the stream bytes
+// appended under it, and its snapshot if it was committed).
+func (d *vfDisk) parkCur() {
+	if d.runId == "" {
+		return
+	}
+	sv := &vfSaved{haveHist: d.haveHist, hbase: d.hbase, hist: d.hist}
+	if d.haveSnap && d.snapDone {
+		sv.haveSnap, sv.snapLeft, sv.snapSize, sv.snap = true, d.snapLeft, d.snapSize, d.snap
+	}
+	d.others[d.runId] = sv
+}
+
+// loadDir: the index is rebuilt from the directory of id (a new generation of the oracle:
+// every reader handed out before is invalidated).
+func (d *vfDisk) loadDir(id string) {
+	sv := d.others[id]
+	delete(d.others, id)
+	d.resetOracle()
+	d.rdbW, d.rdbSR = nil, nil
+	if sv != nil {
+		d.haveHist, d.hbase, d.hist = sv.haveHist, sv.hbase, sv.hist
+		if sv.haveSnap {
+			d.haveSnap, d.snapLeft, d.snapSize, d.snap, d.snapDone = true, sv.snapLeft, sv.snapSize, sv.snap, true
+		}
+	}
+	d.runId = id
+}
+
+// switchedTo: the oracle follows a successful SetRunId(id) with id != current
+func (d *vfDisk) switchedTo(id string) {
+	if id == "" || id == "?" || id == d.runId {
+		return
+	}
+	for _, vr := range d.readers {
+		vr.switched = true
+	}
+	_, exists := d.others[id]
+	switch {
+	case d.runId == "":
+		d.loadDir(id) // an existing directory, or a fresh one
+	case exists:
+		d.parkCur()
+		d.loadDir(id)
+	default:
+		d.runId = id // the directory is renamed: the same bytes under a new label
+	}
+}
+
 func (d *vfDisk) opSetRun(id string) {
 	var err error
 	same := id == d.runId && id != ""
@@ -389,32 +487,98 @@ func (d *vfDisk) opSetRun(id string) {
 		d.s.Violate("hang", "SetRunId did not return", d.replay(nil))
 		return
 	}
-	if err == nil && !same && d.runId != "" {
-		// replication-id switch: an invalidation event for every open reader
-		for _, vr := range d.readers {
-			vr.switched = true
-		}
+	if err == nil && !same {
+		d.switchedTo(id)
 	}
-	if err == nil {
-		d.runId = id
-	}
-	d.emit("dsetrun "+id, vfErrClass(err))
+	d.emit("dsetrun "+vfDash(id), vfErrClass(err))
 }
 
-func (d *vfDisk) opDelRun() {
-	id := d.runId
+func (d *vfDisk) opDelRun() { d.opDelRunId(d.runId) }
+
+// opDelRunId: DelRunId(id) — of the current id (the cache is reset), or of a FOREIGN id whose
+// directory exists (that directory goes; the store forgets its current id, whose directory stays)
+func (d *vfDisk) opDelRunId(id string) {
 	var err error
 	if !d.guard("delrun", func() { err = d.st.DelRunId(id) }) {
 		d.emit("ddelrun "+vfDash(id), "hang")
 		d.s.Violate("hang", "DelRunId did not return (cache reset with open readers/writers)", d.replay(nil))
 		return
 	}
-	if id != "" {
+	_, foreign := d.others[id]
+	switch {
+	case id == "" || id == "?":
+	case id == d.runId:
+		d.resetOracle()
+		d.rdbW, d.rdbSR = nil, nil
+		d.runId = ""
+	case foreign:
+		delete(d.others, id)
+		d.parkCur()
 		d.resetOracle()
 		d.rdbW, d.rdbSR = nil, nil
 		d.runId = ""
 	}
 	d.emit("ddelrun "+vfDash(id), vfErrClass(err))
+}
+
+// opVerify: Storer.VerifyRunId(ids) — the first id whose directory exists and holds something
+// becomes the current one. The oracle follows the store's answer for WHICH id that is (the
+// model computes it independently and is compared through dq/ddump); what each directory
+// holds is the oracle's own account.
+func (d *vfDisk) opVerify(ids []string) {
+	var off int64
+	var err error
+	if !d.guard("verify", func() { off, err = d.st.VerifyRunId(ids) }) {
+		d.s.Violate("hang", "VerifyRunId did not return", d.replay(nil))
+		return
+	}
+	if cur := d.st.RunId(); cur != d.runId {
+		if _, ok := d.others[cur]; ok || d.runId == "" {
+			d.switchedTo(cur)
+		}
+	}
+	// ---- monitor: what VerifyRunId answers (StoreChannel.StartPoint hands it to the input as
+	// the offset to continue the stream at, the `ask` of the callers' protocol) is the latest
+	// offset of the id it made current — not of the id that was current before
+	if err == nil && off != 0 {
+		d.s.Count("mon_startpoint_checked")
+		if lo := d.st.LatestOffset(); lo != off {
+			d.s.Violate("startpoint-not-latest", fmt.Sprintf("VerifyRunId(%v) made %q current and answered offset %d, but LatestOffset() of that id is %d: a stream writer created at the answer would not continue the held stream",
+				ids, d.st.RunId(), off, lo), d.replay(nil))
+		}
+	}
+	out := vfErrClass(err)
+	if err == nil {
+		out = fmt.Sprintf("ok %d", off)
+	}
+	ds := make([]string, len(ids))
+	for i, x := range ids {
+		ds[i] = vfDash(x)
+	}
+	d.emit("dverify "+strings.Join(ds, ","), out)
+}
+
+// opRestart: a clean stop (readers closed, no writer open) and a new Storer on the same base
+// directory: no current id, the directory of the old one stays.
+func (d *vfDisk) opRestart() {
+	for _, id := range d.liveReaders() {
+		vr := d.readers[id]
+		if vr.isAof {
+			vr.rd.aof.Close()
+		} else {
+			vr.rd.rdb.Close()
+		}
+		vr.rd.Close()
+		vr.closed = true
+	}
+	d.st.Close()
+	d.st = NewStorer("vf", d.root, d.maxSize, d.logSize, config.FlushPolicy{})
+	d.st.VerifStopCollector()
+	d.parkCur()
+	d.resetOracle()
+	d.rdbW, d.rdbSR = nil, nil
+	d.runId = ""
+	d.emit("drestart", "ok")
 }
 
 func (d *vfDisk) opRdbWriter(off, size int64) {
@@ -758,8 +922,24 @@ func (d *vfDisk) chunk(max int) []byte {
 func (d *vfDisk) step() bool {
 	r := d.r
 	if d.runId == "" {
-		d.nextId++
-		d.opSetRun(fmt.Sprintf("id%d", d.nextId))
+		// no current id (start, DelRunId, restart): a fresh id, or — when other directories
+		// exist — one of them, by SetRunId or through VerifyRunId
+		var oth []string
+		for id := range d.others {
+			oth = append(oth, id)
+		}
+		sort.Strings(oth)
+		switch {
+		case len(oth) > 0 && r.Chance(1, 3):
+			d.opSetRun(vfutil.Pick(r, oth))
+			d.s.Count("op_existing_dir_from_no_id")
+		case len(oth) > 0 && r.Chance(1, 3):
+			d.opVerify([]string{"zz", vfutil.Pick(r, oth), vfutil.Pick(r, oth)})
+			d.s.Count("op_verify_from_no_id")
+		default:
+			d.nextId++
+			d.opSetRun(fmt.Sprintf("id%d", d.nextId))
+		}
 		return true
 	}
 	live := d.liveReaders()
@@ -894,6 +1074,39 @@ func (d *vfDisk) step() bool {
 			}
 		})
 	}
+	// several run-id directories in one store (between two runs of the input: no writer open)
+	if d.aofW == nil && d.rdbW == nil {
+		var oth []string
+		for id := range d.others {
+			oth = append(oth, id)
+		}
+		sort.Strings(oth)
+		if len(oth) > 0 {
+			add(6, func() {
+				d.opSetRun(vfutil.Pick(r, oth))
+				d.s.Count("op_switch_to_existing_dir")
+				if len(live) > 0 {
+					d.s.Count("op_switch_to_existing_dir_with_open_readers")
+				}
+			})
+			add(2, func() { d.opDelRunId(vfutil.Pick(r, oth)); d.s.Count("op_delrun_foreign") })
+		}
+		add(1, func() { d.opDelRunId("zz"); d.s.Count("op_delrun_missing") })
+		// SetRunId("?") / SetRunId(""): newRunId ignores both ids — nothing may happen to the cache
+		add(1, func() { d.opSetRun(vfutil.Pick(r, []string{"?", "?", ""})); d.s.Count("op_setrun_placeholder_id") })
+		add(2, func() { d.opRestart(); d.s.Count("op_restart") })
+		add(2, func() {
+			// VerifyRunId over a mix of missing ids, "?", "", the other directories and the current id
+			pool := append([]string{"zz", "?", "", d.runId}, oth...)
+			n := 1 + r.Intn(4)
+			ids := make([]string, n)
+			for i := range ids {
+				ids[i] = vfutil.Pick(r, pool)
+			}
+			d.opVerify(ids)
+			d.s.Count("op_verify")
+		})
+	}
 	tot := 0
 	for _, c := range cs {
 		tot += c.w
@@ -916,6 +1129,37 @@ func (d *vfDisk) runCase(nops int) {
 		ms = 0 // collector disabled
 	}
 	d.opNew(ls, ms)
+	// a third of the cases starts with one or two directories left by an earlier process
+	if d.r.Chance(1, 3) {
+		for k := 0; k < 1+d.r.Intn(2) && !d.dead; k++ {
+			d.nextId++
+			d.opSetRun(fmt.Sprintf("id%d", d.nextId))
+			d.observe()
+			if d.r.Chance(1, 3) {
+				size := 9 + d.r.Intn(40)
+				d.opRdbWriter(int64(100+d.r.Intn(900)), int64(size))
+				d.snapPlan = d.r.Bytes(size)
+				d.observe()
+				d.opRdbAppend(d.snapPlan)
+				d.observe()
+			}
+			off := int64(100 + d.r.Intn(900))
+			if d.haveSnap {
+				off = d.snapLeft
+			}
+			d.opAofWriter(off)
+			d.observe()
+			for j := 0; j < 1+d.r.Intn(6); j++ {
+				d.opAofAppend(d.chunk(int(ls)))
+				d.observe()
+			}
+			d.opAofClose()
+			d.observe()
+			d.opRestart()
+			d.observe()
+			d.s.Count("prologue_dirs")
+		}
+	}
 	for i := 0; i < nops && !d.dead; i++ {
 		if d.step() {
 			d.observe()
@@ -968,9 +1212,17 @@ func (d *vfDisk) runScript(script string) {
 		case "dq", "ddump":
 			continue
 		case "dsetrun":
-			d.opSetRun(f[1])
+			d.opSetRun(vfUndash(f[1]))
 		case "ddelrun":
-			d.opDelRun()
+			d.opDelRunId(vfUndash(f[1]))
+		case "dverify":
+			ids := strings.Split(f[1], ",")
+			for i := range ids {
+				ids[i] = vfUndash(ids[i])
+			}
+			d.opVerify(ids)
+		case "drestart":
+			d.opRestart()
 		case "drdbw":
 			d.opRdbWriter(num(1), num(2))
 		case "drdba":
@@ -1175,7 +1427,7 @@ func TestVerifC05(t *testing.T) {
 			}
 		}
 	}
-	cases := vfutil.Scale(100, 1500)
+	cases := vfutil.Scale(100, 1200)
 	if v, err := strconv.Atoi(os.Getenv("VERIF_CASES")); err == nil {
 		cases = v
 	}
